@@ -171,9 +171,10 @@ Proof. intros. rewrite app_tail_recs by auto. apply last_commit_nostate. reflexi
 Lemma rd_inv_marker : forall s s' hi i,
   segs s <> [] -> rd_inv s hi -> segs s' = app_tail (segs s) [RSnap i] -> unflushed s' = 0%nat ->
   rdp s' = rdp s -> rs_last s' = rs_last s -> published s' = published s -> wstate s' = wstate s -> hcommit s' = hcommit s ->
-  proposed s' = proposed s -> ckpts s' = ckpts s -> snapfiles s' = snapfiles s -> app s' = app s -> rd_inv s' hi.
+  proposed s' = proposed s -> ckpts s' = ckpts s -> snapfiles s' = snapfiles s -> app s' = app s ->
+  rd_done s' = rd_done s -> i <= applied s -> (forall j, app s = ApSnapPrepared j -> applied s < j) -> rd_inv s' hi.
 Proof.
-  intros s s' hi i Hne H Es Eu E3 E4 E5 E6 E7 E8 E10 E11 Eap.
+  intros s s' hi i Hne H Es Eu E3 E4 E5 E6 E7 E8 E10 E11 Eap Erd Hia Hapj.
   assert (H1 : last_commit (all_recs (segs s')) = last_commit (all_recs (segs s))) by (rewrite Es; apply marker_lc; auto).
   assert (H2 : forall i0, lc_all_lt s i0 -> lc_all_lt s' i0).
   { intros i0 L j Hj. rewrite Eu in Hj. assert (j = 0%nat) by lia. subst j. rewrite drop_tail_0, H1.
@@ -187,13 +188,15 @@ Proof.
   { intros i0 j Hj. rewrite Eu in Hj. lia. }
   unfold rd_inv, window, snapfacts, ckpt_ok, pubcl, rlast in *.
   rewrite E3, E4, E5, E6, E7, E8, E10, E11, H1, Eap.
-  destruct (rdp s) as [|r sv pb|r pb apd|r pb idx|r|r fl|r|r k]; auto.
+  destruct (rdp s) as [|r sv pb|r pb apd|r pb idx|r|r fl|r|r k|r k cidx]; auto.
   - destruct (0 <? r_snap r); destruct sv; intuition.
   - destruct (0 <? r_snap r); destruct apd; intuition.
   - destruct (0 <? r_snap r); intuition.
   - intuition.
   - intuition.
   - destruct H as [A [B [C [D E]]]]. repeat split; auto. rewrite Es, newest_app_tail_marker by auto. lia.
+  - destruct H as [A0 [A1 [A2 [A3 [A4 [A5 [A6 [A7 A8]]]]]]]]. specialize (Hapj _ A6).
+    rewrite Erd, Eu. repeat split; auto; [rewrite Es, newest_app_tail_marker by auto; lia | destruct k; auto; tauto].
 Qed.
 
 Lemma step_sn_marked : forall c s s' i, Inv c s -> step c s (EvSnMarked i) = Ok s' -> Inv c s'.
@@ -216,14 +219,15 @@ Proof.
     match goal with |- VInv c ?st _ => set (s1 := st) end.
     assert (Hai' : app_inv s1 hi).
     { apply (app_inv_marker s s1 hi i); auto; try (unfold s1; proj; reflexivity); try lia.
-      all: try (unfold pend_idx, pending, s1; proj; reflexivity).
+      all: try (unfold pend_idx, pend_r, pending, s1; proj; reflexivity).
       all: try (unfold s1; proj; exact Hnw). }
-    unfold app_inv, snap_pend, snap_done in Hai'.
-    replace (pend_idx s1) with (pend_idx s) in Hai' by (unfold pend_idx, pending, s1; proj; reflexivity).
+    unfold app_inv, snap_pend, snap_done, snap_mid in Hai'.
+    replace (pend_idx s1) with (pend_idx s) in Hai' by (unfold pend_idx, pend_r, pending, s1; proj; reflexivity).
     unfold s1 in *. clear s1. proj. rewrite Hnw in Hai'.
     vinv_split HV; rewrite ?Hnw, ?marker_lc, ?marker_unvalidated, ?app_tail_length, ?nth_sfirst_app_tail by auto; try assumption.
     + (* raft loop: only the unflushed counter and the WAL view changed *)
-      apply (rd_inv_marker s _ hi i); auto.
+      apply (rd_inv_marker s _ hi i); auto; [lia|].
+      intros j Hj. rewrite Hj in v_app. tauto.
     + destruct v_nrel as [N1 N2]. split; [exact N1 | lia].
     + destruct v_latest as [L1 L2]. split; [destruct L1 as [L1|L1]; [left; lia | right; exact L1]|]. intros lat Hlat. specialize (L2 lat Hlat). lia.
     + destruct v_snapi as [A B]. split; [exact A|]. destruct B as [B|B]; [left; lia | right; exact B].
@@ -480,10 +484,10 @@ Proof.
     match goal with |- VInv c ?st _ => set (s1 := st) end.
     assert (Hai' : app_inv s1 hi).
     { apply (app_inv_marker s s1 hi 0); auto; try (unfold s1; proj; reflexivity); try lia.
-      all: try (unfold pend_idx, pending, s1; proj; reflexivity).
+      all: try (unfold pend_idx, pend_r, pending, s1; proj; reflexivity).
       unfold s1. proj. rewrite Hnw. lia. }
-    unfold app_inv, snap_pend, snap_done in Hai'.
-    replace (pend_idx s1) with (pend_idx s) in Hai' by (unfold pend_idx, pending, s1; proj; reflexivity).
+    unfold app_inv, snap_pend, snap_done, snap_mid in Hai'.
+    replace (pend_idx s1) with (pend_idx s) in Hai' by (unfold pend_idx, pend_r, pending, s1; proj; reflexivity).
     unfold s1 in *. clear s1. proj. rewrite ?Hnw in Hai'.
     vinv_split HV; proj; rewrite ?Hlc, ?Hnw; try assumption.
     + apply (rd_inv_purge_wal s _ hi x y t); auto.
